@@ -25,8 +25,9 @@ class Regions:
     """
 
     def __init__(self, regions=(), /):
-        if regions == ():
-            regions = []
+        if not isinstance(regions, list):
+            # a tuple, a generator or any other iterable of regions
+            regions = list(regions)
         for item in regions:
             if not isinstance(item, Region):
                 raise TypeError('Input regions must be a list of Region '
@@ -78,6 +79,9 @@ class Regions:
         if isinstance(regions, Regions):
             self.regions.extend(regions.regions)
         else:
+            if not isinstance(regions, list):
+                # e.g., a generator would be used up by the check below
+                regions = list(regions)
             for item in regions:
                 if not isinstance(item, Region):
                     raise TypeError('Input regions must be a list of Region '
